@@ -66,6 +66,12 @@ def cases(tier, seed):
                         out.append(dict(n=n, blocks=list(blocks), deg="none", dtypes=dt, mode=mode, fd=[], solver="direct",
                                         total=3, seed=seed, h0repr=rep))
             out.append(dict(n=n, blocks=list(blocks), deg="none", dtypes="rc", mode="herm", fd=[], solver="direct-opts2", total=3, seed=seed))
+    # real explicit vectors and real perturbations with a complex H_0
+    for blocks in ((1,), (2,), (1, 1)):
+        for mode in ("herm", "nonherm-RL"):
+            for fd in ((), (0,)):
+                out.append(dict(n=6, blocks=list(blocks), deg="none", dtypes="cr", mode=mode, fd=list(fd), solver="direct", total=3,
+                                seed=seed, layout="real-vectors-complex-h0"))
     # degenerate explicit pair with eigenvectors localised on disjoint, unequally large site sets
     for n in (6,) if qk else (6, 7):
         for blocks in ((2,), (2, 1), (3,)):
@@ -78,7 +84,9 @@ def cases(tier, seed):
            dict(n=5, blocks=[1, 1], deg="none", dtypes="rr", mode="herm", fd=[], solver="kpm", total=2, seed=seed),
            dict(n=5, blocks=[2], deg="none", dtypes="cc", mode="herm", fd=[], solver="kpm-atol", total=2, seed=seed),
            dict(n=5, blocks=[1], deg="none", dtypes="rr", mode="herm", fd=[], solver="kpm-aux", total=2, seed=seed),
-           dict(n=6, blocks=[1, 1], deg="none", dtypes="rc", mode="herm", fd=[], solver="kpm-aux", total=2, seed=seed)]
+           dict(n=6, blocks=[1, 1], deg="none", dtypes="rc", mode="herm", fd=[], solver="kpm-aux", total=2, seed=seed),
+           dict(n=6, blocks=[1], deg="none", dtypes="cc", mode="herm", fd=[], solver="kpm-aux", total=2, seed=seed),
+           dict(n=6, blocks=[1, 1], deg="none", dtypes="cr", mode="herm", fd=[], solver="kpm-aux", total=2, seed=seed)]
     if not qk:
         kpm += [dict(n=6, blocks=[1, 2], deg="none", dtypes="rc", mode="herm", fd=[], solver="kpm", total=3, seed=seed),
                 dict(n=6, blocks=[2], deg="pair", dtypes="rr", mode="herm", fd=[0], solver="kpm-atol", total=3, seed=seed)]
@@ -114,7 +122,25 @@ def problem(case):
         A[:2, 0] = 1
         A[:, 1] = 0
         A[2:, 1] = np.exp(1j * np.arange(n - 2)) if ch0 else 1
-    if case["mode"] != "nonherm-RL":
+    if case.get("layout") == "real-vectors-complex-h0":
+        # real explicit vectors (handed over as real arrays) and real perturbations, but a complex H_0:
+        # real right-hand sides meet complex Green's functions
+        nexp_ = sum(blocks)
+        if case["mode"] == "nonherm-RL":
+            T = rng.normal(size=(n, n)) + 3 * np.eye(n)
+            Ec = E + 1j * np.array([0.5, -1.0, 2.0, 0.25, -0.75, 1.5, -2.0, 1.0][:n])
+            Rm, Lm = T, np.linalg.inv(T).T
+            h0 = T @ np.diag(Ec) @ np.linalg.inv(T)
+            E = Ec
+        else:
+            Ac = rng.normal(size=(n - nexp_, n - nexp_)) + 1j * rng.normal(size=(n - nexp_, n - nexp_))
+            Qc, _ = np.linalg.qr(Ac)
+            Rm = np.eye(n, dtype=complex)
+            Rm[nexp_:, nexp_:] = Qc
+            h0 = Rm @ np.diag(E) @ Rm.conj().T
+            Rm = np.hstack([np.eye(n)[:, :nexp_], Rm[:, nexp_:]])
+            Lm = Rm
+    elif case["mode"] != "nonherm-RL":
         Q, _ = np.linalg.qr(A)
         Rm, Lm = Q, Q
         h0 = Q @ np.diag(E) @ Q.conj().T
@@ -167,9 +193,11 @@ def run_case(case):
     pairs = case["mode"] == "nonherm-RL"
 
     def vecs(lo, hi):
+        real_ok = case.get("layout") == "real-vectors-complex-h0" and hi <= nexp
+        cast = (lambda a: np.ascontiguousarray(a.real)) if real_ok else (lambda a: a.copy())
         if pairs:
-            return (Rm[:, lo:hi].copy(), Lm[:, lo:hi].copy())
-        return Rm[:, lo:hi].copy()
+            return (cast(Rm[:, lo:hi]), cast(Lm[:, lo:hi]))
+        return cast(Rm[:, lo:hi])
 
     explicit = [vecs(off[b], off[b + 1]) for b in range(nb)]
     complete = explicit + [vecs(nexp, n)]
